@@ -14,6 +14,7 @@ Query::run*, and the public relation/operator constructors) is classified:
   reachable     - everything else: reported (LTerm::project is the recorded finding F4).
 A site that is in none of the tables is a violation: that is the realistic regression (a new
 unwrap() on a value that can be None).
+ (round 4, shared) Constraint::operands completeness (verify_all_bound reads it).
 """
 import hirwalk
 import streams
@@ -246,6 +247,7 @@ def run(ctx, fb, cfg):
 
         fdrules.check_dstore_keys(ctx, lib, "C23.K3.domain-store-keys")
         fdrules.check_registry(ctx, lib, "C23.K11.registry")
+        fdrules.check_operands(ctx, lib, "C23.K10.operands-complete")
     R = "C23.K8.panic-inventory"
     edges, bodies = call_graph(lib)
     rs = roots(lib)
